@@ -1,7 +1,7 @@
 /*@harness
 {"tier":"quick","mode":"bounded(sweep of 1 second over a slot holding at most 2 entries; the callback may schedule one new call_out with a symbolic delay; all times and deltas symbolic)","tus":["lib/efuns/call_out.c"],"include_tu":true,"dfcc":false,
  "functions":["call_out","new_call_out","free_called_call","free_call"],
- "flags":["--bounds-check","--pointer-check"],"unwind":3,"timeout":1200,
+ "flags":["--bounds-check","--pointer-check","--unwindset","due_in_wheel.0:34,due_in_wheel.1:34"],"unwind":3,"timeout":1200,
  "expect":["h_call_out_sweep.assertion","apply.assertion","call_out.pointer_dereference"],
  "native":{"rename":["setjmp"]},
  "assumptions":["apply() is the LPC callback: it may call call_out() (new_call_out) once, re-entrantly, with any delay","setjmp returns 0 (the error path is C05/C09 territory)","reference-count primitives are stubs"],
@@ -34,7 +34,7 @@ svalue_t *apply(const char *fun, object_t *ob, int n, int origin) {
   }
   return 0;
 }
-static long due_in_wheel(pending_call_t *e, long cot) {   /* due time of e computed from the wheel as it is now, -1 if absent */
+long due_in_wheel(pending_call_t *e, long cot) {   /* due time of e computed from the wheel as it is now, -1 if absent */
   for (int s = 0; s < W; s++) { long sum = 0; int k = 0;
     for (pending_call_t *c = call_list[s]; c && k < 4; c = c->next, k++) { sum += c->delta; if (c == e) return due_of(s, cot, sum); } }
   return -1;
